@@ -235,19 +235,76 @@ Theorem C14_repeated_key_prefix_refuted :
 Proof. eexists. eexists. split; [vm_compute; reflexivity|]. repeat split. Qed.
 
 (* ------------------------------------------------------------------ packets that are not understood (repair bf7dbf5) *)
-(* signatures before the first non-signature packet are no longer an AttributeError: they are "orphaned packets" (a warning) - and,
-   the code being what it is (itertools.groupby has read one packet ahead when the loop is restarted), the packet after them is
-   lost with them: the model follows (strip_orphans); an export never starts with a signature, so C14_import_export is untouched.
-   Witness: signature, key 1, key 2 with a user id -> key 2 alone; signature, key 1, user id -> TypeError (no primary key) *)
+(* The orphan repair: what is no part of a key - signatures before the first non-signature packet, a stray packet (a Marker packet as
+   old PGP wrote in front of keyrings, ...) with the signatures grouped with it - is set aside and the parse goes on; nothing else is
+   dropped.  Leading signatures change nothing: *)
+Theorem C14_leading_signatures_ignored : forall ss ps, forallb is_sigpkt ss = true -> import (ss ++ ps) = import ps.
+Proof. exact leading_signatures_ignored. Qed.
+Print Assumptions C14_leading_signatures_ignored.
+
+(* ... and a stray packet with the signatures that follow it, in front of, between or after the packets of the keys - anywhere but directly
+   in front of signatures (which would then be grouped with it instead of the component before) - changes nothing either *)
+Theorem C14_stray_packets_do_not_disturb : forall a id ss b, forallb is_sigpkt ss = true -> fst (groups (filter not_trust b)) = [] ->
+  import (a ++ PStray id :: ss ++ b) = import (a ++ b).
+Proof. exact stray_packets_do_not_disturb. Qed.
+Print Assumptions C14_stray_packets_do_not_disturb.
+
+(* the same on the groups the parse loop sees: all stray groups removed, the skipping pass leaves the same groups to build keys from *)
+Theorem C14_stray_groups_invisible : forall gs b, drop_skipped b (filter (fun g => negb (stray_group g)) gs) = drop_skipped b gs.
+Proof. exact drop_skipped_filter_stray. Qed.
+Print Assumptions C14_stray_groups_invisible.
+
+(* hence also for exported keys: markers and stray signatures around and between them do not disturb the separation *)
+Example C14_stray_between_exports : forall k1 k2 id1 id2 ss, wf_pub k1 -> wf_pub k2 -> kid k1 <> kid k2 -> forallb is_sigpkt ss = true ->
+  import (PStray id1 :: ss ++ export k1 ++ PStray id2 :: ss ++ export k2)
+  = Ok [copy (strip_nonexportable k1); copy (strip_nonexportable k2)].
+Proof.
+  intros k1 k2 id1 id2 ss H1 H2 Hne Hs.
+  assert (Hx : forall k r, fst (groups (filter not_trust (export k ++ r))) = []).
+  { intros k r. unfold export. rewrite <- app_comm_cons. cbn [filter not_trust groups]. destruct (groups _). reflexivity. }
+  change (PStray id1 :: ss ++ export k1 ++ PStray id2 :: ss ++ export k2)
+    with ([] ++ PStray id1 :: ss ++ (export k1 ++ PStray id2 :: ss ++ export k2)).
+  rewrite (stray_packets_do_not_disturb [] id1 ss _ Hs (Hx k1 _)). cbn [app].
+  assert (Hy : fst (groups (filter not_trust (export k2))) = []) by (rewrite <- (app_nil_r (export k2)); apply Hx).
+  rewrite (stray_packets_do_not_disturb (export k1) id2 ss (export k2) Hs Hy).
+  pose proof (concat_splits [k1; k2]) as H. cbn [flat_map map] in H. rewrite app_nil_r in H. apply H.
+  - intros k [<-|[<-|[]]]; assumption.
+  - constructor; [intros [E|[]]; congruence|constructor; [intros []|constructor]].
+Qed.
+
+(* the witnesses, and the rules before refuted: HEAD before the orphan repair left the loop and restarted it, which lost the packet
+   itertools.groupby had read ahead (import_pre_orphanfix); before bf7dbf5 a leading signature raised *)
+Definition sg7 : packet := PSig (ps (mk 1 19 100 None true 7)).
 Theorem C14_leading_signature_orphaned :
-  (exists b, import [PSig (ps (mk 1 19 100 None true 7)); PKey true true true 1; PKey true true true 2; PUid true [3]] = Ok [b]
-     /\ p_label b = 2 /\ map u_content (p_uids b) = [[3]])
-  /\ import [PSig (ps (mk 1 19 100 None true 7)); PKey true true true 1; PUid true [3]] = ErrNoPrimary
-  /\ import [POpaque true 5; PSig (ps (mk 1 19 100 None true 7)); PKey true true true 1; PUid true [3]]
-     = import [PKey true true true 1; PUid true [3]]
-  /\ import_pre_bf7 [PSig (ps (mk 1 19 100 None true 7)); PKey true true true 1; PUid true [3]] = ErrLeadingSignature.
-Proof. split; [eexists; split; [vm_compute; reflexivity|]; split; reflexivity|]. repeat split. Qed.
+  (exists a b, import [sg7; PKey true true true 1; PKey true true true 2; PUid true [3]] = Ok [a; b]
+     /\ p_label a = 1 /\ p_uids a = [] /\ p_label b = 2 /\ map u_content (p_uids b) = [[3]])
+  /\ (exists a, import [sg7; PKey true true true 1; PUid true [3]] = Ok [a] /\ p_label a = 1 /\ map u_content (p_uids a) = [[3]])
+  /\ import [POpaque true 5; sg7; PKey true true true 1; PUid true [3]] = import [PKey true true true 1; PUid true [3]]
+  /\ (exists b, import_pre_orphanfix [sg7; PKey true true true 1; PKey true true true 2; PUid true [3]] = Ok [b] /\ p_label b = 2)
+  /\ import_pre_orphanfix [sg7; PKey true true true 1; PUid true [3]] = ErrNoPrimary
+  /\ import_pre_bf7 [sg7; PKey true true true 1; PUid true [3]] = ErrLeadingSignature.
+Proof.
+  split; [eexists; eexists; split; [vm_compute; reflexivity|]; repeat split|].
+  split; [eexists; split; [vm_compute; reflexivity|]; repeat split|].
+  split; [reflexivity|]. split; [eexists; split; [vm_compute; reflexivity|]; reflexivity|]. split; reflexivity.
+Qed.
 Print Assumptions C14_leading_signature_orphaned.
+
+(* key 1, a stray packet, key 2: two keys with their own user ids - one key carrying both user ids under the rule before;
+   a stray packet in front of a key: the key - a TypeError (no primary key for its user id) under the rule before *)
+Definition blob_stray : list packet := [PKey true true true 1; PUid true [1]; PStray 0; PKey true true true 2; PUid true [2]].
+Theorem C14_stray_packet_pre_orphanfix_refuted :
+  (exists a b, import blob_stray = Ok [a; b] /\ p_label a = 1 /\ map u_content (p_uids a) = [[1]]
+     /\ p_label b = 2 /\ map u_content (p_uids b) = [[2]])
+  /\ (exists a, import_pre_orphanfix blob_stray = Ok [a] /\ p_label a = 1 /\ map u_content (p_uids a) = [[1]; [2]])
+  /\ (exists a, import [PStray 0; PKey true true true 1; PUid true [1]] = Ok [a] /\ p_label a = 1 /\ map u_content (p_uids a) = [[1]])
+  /\ import_pre_orphanfix [PStray 0; PKey true true true 1; PUid true [1]] = ErrNoPrimary.
+Proof.
+  split; [eexists; eexists; split; [vm_compute; reflexivity|]; repeat split|].
+  split; [eexists; split; [vm_compute; reflexivity|]; repeat split|].
+  split; [eexists; split; [vm_compute; reflexivity|]; repeat split|]. reflexivity.
+Qed.
+Print Assumptions C14_stray_packet_pre_orphanfix_refuted.
 
 (* after a primary key packet of unknown version nothing is kept until an understood primary key packet comes *)
 Theorem C14_opaque_primary_skips_what_follows : forall gs,
